@@ -380,7 +380,12 @@ func cliCloseWhileWritingProbe(v6 bool, rounds int) string {
 // field that an aborted call leaves behind), and not of a transient error the connection
 // reported to the receive loop, which ends the loop and nothing else (seeded change
 // C12-12: the receive loop "failing fast" by shutting the client down).
-func cliScheduleProbe(v6 bool, readError bool) string {
+func cliScheduleProbe(v6 bool, readError bool) string { return cliScheduleProbeX(v6, readError, false) }
+
+// writeError: the earlier call ended with a write error on its second try (the client is
+// open), and the later call re-sends the SAME request, transaction id included (seeded
+// change C12-7: the id of a call whose write failed stays registered).
+func cliScheduleProbeX(v6 bool, readError, writeError bool) string {
 	var what string
 	const T = 400 * time.Millisecond
 	status := inBubble(20*time.Second, func() {
@@ -394,6 +399,13 @@ func cliScheduleProbe(v6 bool, readError bool) string {
 				time.Sleep(100 * time.Millisecond)
 				conn.inject(cliReadErrMarker)
 			}()
+		} else if writeError {
+			conn.failWrite = 1
+			if out := cl.call(context.Background(), x+1, never, false); out != "werr" {
+				what = "a call whose second WriteTo fails on the open client ended with " + out + "; want the write error"
+				return
+			}
+			time.Sleep(50 * time.Millisecond)
 		} else {
 			// the earlier call: cancelled in the middle of its third try
 			ctx, cancel := context.WithTimeout(context.Background(), 2*time.Second)
@@ -415,7 +427,9 @@ func cliScheduleProbe(v6 bool, readError bool) string {
 		}
 		got := fmt.Sprintf("%s after %v, transmissions at %v", out, time.Since(t0), at)
 		if want := "noresp after 2.8s, transmissions at [0s 400ms 1.2s]"; got != want {
-			if readError {
+			if writeError {
+				what = "a call (T=400ms, 3 tries, nobody answers) that re-sends the request of an earlier call which had ended with a write error on its second try: " + got + "; want " + want
+			} else if readError {
 				what = "a call (T=400ms, 3 tries, nobody answers) during which the connection reported one transient read error to the receive loop: " + got + "; want " + want
 			} else {
 				what = "a call (T=400ms, 3 tries, nobody answers) made after an earlier call on the same client was cancelled in its third try: " + got + "; want " + want
